@@ -94,6 +94,25 @@ def judge_encoding(ctx, U, vocab_idx, list_idx, scores):
     got_p = np.asarray(E.prediction_encoding(ptags, enc))
     if got_p.shape != want_p.shape or np.abs(got_p - want_p).max(initial=0) > F32_TOL:
         ctx.violate("prediction_scores", "prediction_scores", observed=got_p.tolist(), expected=want_p.tolist(), spec=spec)
+    # the caller owns the returned vectors: it edits them in place, builds an encoder for another vocabulary in between,
+    # and encodes equal lists again with the first encoder
+    if ctx.every(spec, 4):
+        try:
+            gv, gp = E.multilabel_encoding(tags, enc), E.prediction_encoding(ptags, enc)
+            for arr in (gv, gp):
+                if isinstance(arr, np.ndarray) and arr.flags.writeable and arr.size:
+                    arr[...] = 9
+            other = E.create_tag_encoder(list(reversed(U[:3])))
+            other.encode(U[0]); E.multilabel_encoding(U[:2], other)
+            ctx.mon("repeat_after_result_edit")
+            gv2 = np.asarray(E.multilabel_encoding(copy.deepcopy(tags), enc))
+            gp2 = np.asarray(E.prediction_encoding(copy.deepcopy(ptags), enc))
+            if not np.array_equal(gv2, want_v) or gp2.shape != want_p.shape or np.abs(gp2 - want_p).max(initial=0) > F32_TOL:
+                ctx.violate("repeat_call_differs", "repeat_call_differs:after_caller_edited_earlier_result", observed=[gv2.tolist(), gp2.tolist()], expected=[want_v.tolist(), want_p.tolist()], spec=spec)
+            if E.classification_encoding(copy.deepcopy(tags), enc) != want:
+                ctx.violate("repeat_call_differs", "repeat_call_differs:classification", observed="differs", spec=spec)
+        except Exception as e:
+            ctx.violate_exc("encoder_raises", f"encoder_raises_on_repeat:{type(e).__name__}", e, spec=spec)
     # out-of-vocabulary entries never influence any result
     ctx.mon("oov_irrelevant")
     keep = [k for k, i in enumerate(in_vocab) if i is not None]
